@@ -319,7 +319,7 @@ func (e *c17Env) check(t fataler, doc any) (msg string, info map[string]bool) {
 			var raw specs.Spec
 			dec := json.NewDecoder(bytes.NewReader(jsonData))
 			dec.DisallowUnknownFields()
-			if isObj && dec.Decode(&raw) == nil && gen.CanonTree(gen.ToTree(&raw)) == gen.CanonTree(doc) {
+			if isObj && dec.Decode(&raw) == nil && gen.CanonTree(model.SpecTree(&raw)) == gen.CanonTree(doc) { // representable in memory: judged by the harness's own serialiser, not by the struct tags
 				info["in-memory-spec"] = true
 				rs = append(rs, result{"Validate(spec)", cfg.s.Validate(&raw)})
 				rs = append(rs, result{"ValidateType(spec)", cfg.s.ValidateType(&raw)})
@@ -426,7 +426,7 @@ func (e *c17Env) check(t fataler, doc any) (msg string, info map[string]bool) {
 			var raw specs.Spec
 			dec := json.NewDecoder(bytes.NewReader(jsonData))
 			dec.DisallowUnknownFields()
-			if isObj && dec.Decode(&raw) == nil && gen.CanonTree(gen.ToTree(&raw)) == gen.CanonTree(doc) {
+			if isObj && dec.Decode(&raw) == nil && gen.CanonTree(model.SpecTree(&raw)) == gen.CanonTree(doc) { // representable in memory: judged by the harness's own serialiser, not by the struct tags
 				for _, own := range []struct {
 					name    string
 					s       *schema.Schema
